@@ -316,26 +316,66 @@ func (w *world) concInt(x value, lo, hi int64) (v int64, ok bool) {
 		return 0, false
 	}
 	n := int(hi - lo + 1)
+	var stop func(i int) bool
 	if n > 4096 {
-		panic(unsupported(fmt.Sprintf("concretising a symbolic integer over %d values", n)))
+		// large nominal range: enumerate upwards and stop as soon as no larger
+		// value is feasible; give up after 4096 candidates
+		full := n
+		n = 4096
+		gt := func(v int64) *Term {
+			if signed {
+				return tc.BVCmp("bvsgt", sx.t, tc.BV(wd, uint64(v)))
+			}
+			return tc.BVCmp("bvugt", sx.t, tc.BV(wd, uint64(v)))
+		}
+		inRange := func() *Term {
+			if signed {
+				return tc.And(tc.BVCmp("bvsge", sx.t, tc.BV(wd, uint64(lo))), tc.BVCmp("bvsle", sx.t, tc.BV(wd, uint64(hi))))
+			}
+			return tc.And(tc.BVCmp("bvuge", sx.t, tc.BV(wd, uint64(lo))), tc.BVCmp("bvule", sx.t, tc.BV(wd, uint64(hi))))
+		}
+		if !w.replaying() && w.feasible(tc.And(inRange(), gt(lo+int64(n)-1))) != rUnsat {
+			panic(unsupported(fmt.Sprintf("concretising a symbolic integer over %d values", full)))
+		}
+		stop = func(i int) bool {
+			if i >= n {
+				return false
+			}
+			return w.feasible(tc.And(inRange(), gt(lo+int64(i)))) == rUnsat
+		}
 	}
 	_ = signed
-	c := w.choose(n+1, func(i int) *Term {
-		if i == n {
-			// out of range
-			var cs []*Term
-			if signed {
-				cs = append(cs, tc.BVCmp("bvslt", sx.t, tc.BV(wd, uint64(lo))), tc.BVCmp("bvsgt", sx.t, tc.BV(wd, uint64(hi))))
-			} else {
-				if lo > 0 {
-					cs = append(cs, tc.BVCmp("bvult", sx.t, tc.BV(wd, uint64(lo))))
-				}
-				cs = append(cs, tc.BVCmp("bvugt", sx.t, tc.BV(wd, uint64(hi))))
+	oor := func() *Term {
+		var cs []*Term
+		if signed {
+			cs = append(cs, tc.BVCmp("bvslt", sx.t, tc.BV(wd, uint64(lo))), tc.BVCmp("bvsgt", sx.t, tc.BV(wd, uint64(hi))))
+		} else {
+			if lo > 0 {
+				cs = append(cs, tc.BVCmp("bvult", sx.t, tc.BV(wd, uint64(lo))))
 			}
-			return tc.Or(cs...)
+			cs = append(cs, tc.BVCmp("bvugt", sx.t, tc.BV(wd, uint64(hi))))
 		}
-		return tc.Eq(sx.t, tc.BV(wd, uint64(lo+int64(i))))
+		return tc.Or(cs...)
+	}
+	// option 0 is "out of range", options 1..n are the values lo..lo+n-1
+	c := w.chooseLazy(n+1, func(i int) *Term {
+		if i == 0 {
+			return oor()
+		}
+		return tc.Eq(sx.t, tc.BV(wd, uint64(lo+int64(i-1))))
+	}, func(i int) bool {
+		if stop == nil || i == 0 {
+			return false
+		}
+		return stop(i - 1)
 	})
+	if c == 0 {
+		return 0, false
+	}
+	return lo + int64(c-1), true
+}
+
+func unusedConcIntTail(c, n int, lo int64) (int64, bool) {
 	if c == n {
 		return 0, false
 	}
